@@ -30,7 +30,7 @@ def run(ctx, rep):
     enf = impl.Enf()
     cases = []   # dicts: text, e (or None), leaves, kind
     # (i) every token sequence up to a length bound
-    L = ctx.bound(5, 6)
+    L = ctx.bound(5, 7)
     for n in range(1, L + 1):
         for seq in itertools.product(ALPHA, repeat=n):
             toks = _seq_tokens(seq)
